@@ -332,15 +332,37 @@ def rule_drained(R):
             edges.append((bb, si["edges"][neg]))
         elif si["enum"] == "core::option::Option" and si["edges"].get("None") is not None:
             edges.append((bb, si["edges"]["None"]))
-    outs = []
-    for bb, j, s_ in code.assigns():
-        rv = s_["rv"]
-        if bb in code.reachable and "agg" in rv and (rv["agg"].get("adt") or "").endswith("Progress") and rv["agg"].get("variant") in ("Idle", "Advanced"):
-            outs.append(bb)
-    ok = bool(edges) and bool(outs) and code.must_pass([0], outs, via_edges=edges)[0]
+    # every way out that reports Idle / Advanced (the value is followed along the path: it may be kept in a local, or come
+    # back from a folded-in helper) has passed one of those edges
+    from .. import paths as _paths
+    none_targets = set(e[1] for e in edges)
+    outs, bad = [], None
+    for lf in _paths.explore(code, 0, lambda t: False, lambda body, x: x in none_targets, max_paths=6000):
+        if lf["kind"] == "path-limit":
+            bad = "too many paths"
+            break
+        if lf["kind"] != "return":
+            continue
+        v = _paths.value_on_path(code, lf["path"], 0)
+        v = peel(v) if v is not None else None
+        variant = None
+        if v is not None and v[0] == "agg" and v[3] == "Err":
+            continue
+        if v is not None and is_call(v, "core::ops::FromResidual::from_residual", "from_residual"):
+            continue       # `?`: an error is handed on
+        if v is not None and v[0] == "agg" and v[3] == "Ok" and v[5]:
+            pv = peel(v[5][0])
+            if pv[0] == "agg" and (pv[2] or "").endswith("Progress"):
+                variant = pv[3]
+        if variant == "Inbound":
+            continue
+        outs.append(lf["end"])
+        if not lf["marked"] and bad is None:
+            bad = "a path reports %s without having seen next_step() == None" % (variant or "a progress value that could not be followed")
+    ok = bool(edges) and bool(outs) and bad is None
     R.ob("write/loop-until-drained", ok,
          "Connection::drive_packet reports Idle / Advanced only on the edge where Outbound::next_step() is None "
-         "(%d such tests, %d reports)" % (len(edges), len(outs)), where=b.span)
+         "(%d such tests, %d reporting paths)%s" % (len(edges), len(outs), "" if bad is None else " — " + bad), where=b.span)
 
 
 def run(R):
